@@ -73,6 +73,11 @@ fn gen_cfg(t: &mut Tape) -> (Cfg, bool) {
                 g.push_str("    side-by-side = true\n");
             }
             g.push_str("[delta \"interactive\"]\n    color-only = true\n");
+            // another builtin feature switched on by a flag in the same section: color-only has
+            // the higher priority among them, so the text stays what it was
+            if t.chance(1, 3) {
+                g.push_str(&format!("    {} = true\n", t.ps(&["diff-so-fancy", "diff-highlight", "navigate", "hyperlinks"])));
+            }
             c.gitconfig = Some(g);
         }
         _ => {
@@ -80,6 +85,9 @@ fn gen_cfg(t: &mut Tape) -> (Cfg, bool) {
             g.push_str("[delta]\n    color-only = true\n");
             if t.chance(1, 3) {
                 g.push_str("    side-by-side = true\n");
+            }
+            if t.chance(1, 3) {
+                g.push_str(&format!("    {} = true\n", t.ps(&["diff-so-fancy", "diff-highlight", "navigate", "hyperlinks"])));
             }
             c.gitconfig = Some(g);
         }
